@@ -93,6 +93,23 @@ const (
 	elementInitImportedGlobalReferenceType Index = 1 << 30
 )
 
+// globalValueType returns the value type of the global at the given index of the global index space
+// (imported globals first); ok is false when the module does not declare such a global.
+func (m *Module) globalValueType(index Index) (vt ValueType, ok bool) {
+	for i := range m.ImportSection {
+		if imp := &m.ImportSection[i]; imp.Type == ExternTypeGlobal {
+			if index == 0 {
+				return imp.DescGlobal.ValType, true
+			}
+			index--
+		}
+	}
+	if int(index) < len(m.GlobalSection) {
+		return m.GlobalSection[index].Type.ValType, true
+	}
+	return 0, false
+}
+
 // unwrapElementInitGlobalReference takes an item of the init vector of an ElementSegment,
 // and returns the Global index if it is supposed to get generated from a global.
 // ok is true if the given init item is as such.
@@ -181,6 +198,12 @@ func (m *Module) validateTable(enabledFeatures api.CoreFeatures, tables []Table,
 			if ok {
 				if index >= globalsCount {
 					return fmt.Errorf("%s[%d].init[%d] global index %d out of range", SectionIDName(SectionIDElement), idx, ei, index)
+				}
+				// The value of the global becomes a table element as is: it must be a reference of the
+				// segment's type, otherwise e.g. an i64 constant would be used as a function pointer.
+				if vt, ok := m.globalValueType(index); ok && vt != elem.Type {
+					return fmt.Errorf("%s[%d].init[%d] global.get %d: type mismatch: %s cannot initialize a %s element",
+						SectionIDName(SectionIDElement), idx, ei, index, ValueTypeName(vt), RefTypeName(elem.Type))
 				}
 			} else {
 				if elem.Type == RefTypeExternref {
